@@ -170,5 +170,6 @@ pub fn run(seed: u64, tier: &str, w: &mut dyn Write) -> usize {
             }
         }
     }
+    n += crate::c16b::run(&mut r, tier, w);
     n
 }
